@@ -105,6 +105,8 @@ var (
 	bitsZero  = []uint32{0x00000000, 0x04923456, 0x2300ffff}
 	bitsSmall = []uint32{0x21008000, 0x207fffff, 0x20400000} // work 1, 2, 3
 	bitsBig   = uint32(0x1d00ffff)
+	// work 2^31, 2^33, 2^62, 2^62.6, 2^63 (just above / exactly int64 max), 2^63.05, 2^64, 2^128
+	bitsLattice = []uint32{0x1d01ffff, 0x1c7fffff, 0x1903ffff, 0x1902aaaa, 0x1901ffff, 0x19020000, 0x1901f000, 0x1900ffff, 0x11010000}
 )
 
 // ---------------------------------------------------------------------------------------------
@@ -597,6 +599,9 @@ func randomHistory(rng *rand.Rand, n int, salt uint32, allowZero bool, extremes 
 			nodes[i].Bits = bitsSmall[rng.Intn(len(bitsSmall))]
 		case b < 90:
 			nodes[i].Bits = bitsBig
+		case b < 95:
+			// works around machine-word boundaries (2^31 … 2^64, 2^128): comparisons and sums that leave a native integer
+			nodes[i].Bits = bitsLattice[rng.Intn(len(bitsLattice))]
 		default:
 			nodes[i].Bits = bitsSmall[0]
 		}
